@@ -113,18 +113,18 @@ pub open spec fn sonic_in_domain(ck: &CommitterKey, p: &LabeledPolynomial, has_r
             None => p.hiding_bound->Some_0 + 1 < ck.powers_of_gamma_g@.len() }))
 }
 impl SonicKZG10 {
-//@fn id=sonic_pc.commit file=poly-commit/src/sonic_pc/mod.rs scope="impl<E, P> PolynomialCommitment<E::ScalarField, P> for SonicKZG10<E, P>" name=commit props=C08,C04,C07,C17,C01
+//@fn id=sonic_pc.commit file=poly-commit/src/sonic_pc/mod.rs scope="impl<E, P> PolynomialCommitment<E::ScalarField, P> for SonicKZG10<E, P>" name=commit props=C08,C04,C07,C17,C01,C19
     fn commit<'a>(ck: &CommitterKey, polynomials: Vec<&'a LabeledPolynomial>, rng: Option<&mut Rng>) -> (res: Result<(Vec<LabeledCommitment<kzg10::Commitment>>, Vec<kzg10::Randomness>), Error>)
     requires
         sonic_ck_wf(ck),
         forall|i: int| 0 <= i < polynomials@.len() ==> (#[trigger] polynomials@[i]).polynomial.wf() && polynomials@[i].polynomial.coeffs@.len() < usize::MAX
             && (polynomials@[i].hiding_bound is Some ==> polynomials@[i].hiding_bound->Some_0 < usize::MAX - 1),
     ensures
-        res is Ok ==> (forall|i: int| 0 <= i < polynomials@.len() ==> sonic_admissible(ck, (#[trigger] polynomials@[i]))),   // name=sonic_pc.commit.bound_violations_are_refused props=C04,C17
-        res is Ok ==> res->Ok_0.0@.len() == polynomials@.len() && res->Ok_0.1@.len() == polynomials@.len(),   // name=sonic_pc.commit.one_commitment_and_state_per_polynomial props=C01
-        res is Ok ==> (forall|i: int| 0 <= i < polynomials@.len() ==> sonic_commit_one(ck, (#[trigger] polynomials@[i]), &res->Ok_0.0@[i], &res->Ok_0.1@[i])),   // name=sonic_pc.commit.commitments_are_the_key_defined_linear_maps props=C08,C04,C07,C01
-        (res is Ok && rng is None) ==> (forall|i: int| 0 <= i < polynomials@.len() ==> (#[trigger] polynomials@[i]).hiding_bound is None),   // name=sonic_pc.commit.hiding_without_rng_never_succeeds props=C07,C17
-        res is Err ==> (exists|i: int| 0 <= i < polynomials@.len() && !(sonic_in_domain(ck, #[trigger] polynomials@[i], rng is Some))),   // name=sonic_pc.commit.only_out_of_domain_requests_are_refused props=C17,C01
+        res is Ok ==> (forall|i: int| 0 <= i < polynomials@.len() ==> sonic_admissible(ck, (#[trigger] polynomials@[i]))),   // name=sonic_pc.commit.bound_violations_are_refused props=C04,C17,C19
+        res is Ok ==> res->Ok_0.0@.len() == polynomials@.len() && res->Ok_0.1@.len() == polynomials@.len(),   // name=sonic_pc.commit.one_commitment_and_state_per_polynomial props=C01,C19
+        res is Ok ==> (forall|i: int| 0 <= i < polynomials@.len() ==> sonic_commit_one(ck, (#[trigger] polynomials@[i]), &res->Ok_0.0@[i], &res->Ok_0.1@[i])),   // name=sonic_pc.commit.commitments_are_the_key_defined_linear_maps props=C08,C04,C07,C01,C19
+        (res is Ok && rng is None) ==> (forall|i: int| 0 <= i < polynomials@.len() ==> (#[trigger] polynomials@[i]).hiding_bound is None),   // name=sonic_pc.commit.hiding_without_rng_never_succeeds props=C07,C17,C19
+        res is Err ==> (exists|i: int| 0 <= i < polynomials@.len() && !(sonic_in_domain(ck, #[trigger] polynomials@[i], rng is Some))),   // name=sonic_pc.commit.only_out_of_domain_requests_are_refused props=C17,C01,C19
 //@body
 //@rw * /&mut crate::optional_rng::OptionalRng\(rng\)/ => &mut optional_rng_wrap(rng)
 //@rw * /Some\(rng\)/ => Some(&mut *rng)
@@ -154,7 +154,7 @@ pub open spec fn sonic_max_rlen(rs: Seq<&kzg10::Randomness>, k: nat) -> nat decr
 }
 pub struct SonicKZG10;
 impl SonicKZG10 {
-//@fn id=sonic_pc.open file=poly-commit/src/sonic_pc/mod.rs scope="impl<E, P> PolynomialCommitment<E::ScalarField, P> for SonicKZG10<E, P>" name=open props=C11,C01,C04,C17
+//@fn id=sonic_pc.open file=poly-commit/src/sonic_pc/mod.rs scope="impl<E, P> PolynomialCommitment<E::ScalarField, P> for SonicKZG10<E, P>" name=open props=C11,C01,C04,C17,C19
     fn open<'a>(ck: &CommitterKey, labeled_polynomials: Vec<&'a LabeledPolynomial>, _commitments: Vec<&'a LabeledCommitment<kzg10::Commitment>>, point: &'a Fr, sponge: &mut Sponge,
                 states: Vec<&'a kzg10::Randomness>, _rng: Option<&mut Rng>) -> (res: Result<kzg10::Proof, Error>)
     requires
@@ -163,17 +163,17 @@ impl SonicKZG10 {
         forall|i: int| 0 <= i < labeled_polynomials@.len() ==> (#[trigger] labeled_polynomials@[i]).polynomial.coeffs@.len() < usize::MAX,
     ensures
         // exactly one challenge before the loop and one per polynomial - for EVERY polynomial, as the verifier does per commitment
-        res is Ok ==> final(sponge).st@ == sp_iter(old(sponge).st@, 1 + min(labeled_polynomials@.len(), states@.len())),   // name=sonic_pc.open.squeeze_schedule_matches_verifier props=C11
+        res is Ok ==> final(sponge).st@ == sp_iter(old(sponge).st@, 1 + min(labeled_polynomials@.len(), states@.len())),   // name=sonic_pc.open.squeeze_schedule_matches_verifier props=C11,C19
         // the proof is the KZG10 opening of the challenge-weighted combination of ALL polynomials (and of their randomness)
         res is Ok ==> (exists|cp: Poly, cr: kzg10::Randomness| #![trigger kzg10::open_spec_seq(ck.powers_of_g@, ck.powers_of_gamma_g@, &cp, *point, &cr, res->Ok_0)]
             (forall|x: FS| #[trigger] cp.ev(x) == sonic_comb_ev(labeled_polynomials@, old(sponge).st@, min(labeled_polynomials@.len(), states@.len()), x))
             && (forall|x: FS| #[trigger] cr.blinding_polynomial.ev(x) == sonic_comb_rand_ev(states@, old(sponge).st@, min(labeled_polynomials@.len(), states@.len()), x))
             && cr.blinding_polynomial.len() <= sonic_max_rlen(states@, min(labeled_polynomials@.len(), states@.len()))
-            && kzg10::open_spec_seq(ck.powers_of_g@, ck.powers_of_gamma_g@, &cp, *point, &cr, res->Ok_0)),   // name=sonic_pc.open.opens_the_challenge_weighted_combination props=C01,C11
-        res is Ok ==> sonic_open_post(ck, labeled_polynomials@, states@, *point, old(sponge).st@, min(labeled_polynomials@.len(), states@.len()), res->Ok_0),   // name=sonic_pc.open.post_as_used_by_the_completeness_lemma props=C01
+            && kzg10::open_spec_seq(ck.powers_of_g@, ck.powers_of_gamma_g@, &cp, *point, &cr, res->Ok_0)),   // name=sonic_pc.open.opens_the_challenge_weighted_combination props=C01,C11,C19
+        res is Ok ==> sonic_open_post(ck, labeled_polynomials@, states@, *point, old(sponge).st@, min(labeled_polynomials@.len(), states@.len()), res->Ok_0),   // name=sonic_pc.open.post_as_used_by_the_completeness_lemma props=C01,C19
         res is Ok ==> (forall|i: int| 0 <= i < min(labeled_polynomials@.len(), states@.len()) ==> ((#[trigger] labeled_polynomials@[i]).degree_bound is Some ==>
             (ck.enforced_degree_bounds is Some && ck.enforced_degree_bounds->Some_0@.contains(labeled_polynomials@[i].degree_bound->Some_0)
-             && labeled_polynomials@[i].polynomial.degree_spec() <= labeled_polynomials@[i].degree_bound->Some_0 && labeled_polynomials@[i].degree_bound->Some_0 <= ck.max_degree))),   // name=sonic_pc.open.bound_violations_are_refused props=C04,C17
+             && labeled_polynomials@[i].polynomial.degree_spec() <= labeled_polynomials@[i].degree_bound->Some_0 && labeled_polynomials@[i].degree_bound->Some_0 <= ck.max_degree))),   // name=sonic_pc.open.bound_violations_are_refused props=C04,C17,C19
 //@body
 //@rw * /\b(combined_polynomial|combined_rand) \+= \((curr_challenge), ([^;]*)\);/ => \1.add_assign_scaled((\2, \3));
 //@closure |bounds| => |bounds: &Vec<usize>| -> (sl: &[usize]) ensures sl@ == bounds@
